@@ -172,3 +172,188 @@ func init() {
 	addMutant(Mutant{Prop: "C07", Name: "cl-typearg-named-by-pkg-name", File: "cl/compile.go",
 		Old: "\t\tif pkg := t.Obj().Pkg(); pkg != nil {\n\t\t\treturn pkg.Path() + \".\" + name\n\t\t}", New: "\t\tif pkg := t.Obj().Pkg(); pkg != nil {\n\t\t\treturn pkg.Name() + \".\" + name\n\t\t}", Expect: "R07.5 cl.context.typeArgName"})
 }
+
+// checkNotifyOneUnderLock (R11.9): the decision "is there an un-notified waiter" and the increment of the
+// notify counter form one critical section; a test made before the lock is taken can be shared by two
+// signallers that then both increment.
+func checkNotifyOneUnderLock(c *Ctx, lp *packages.Package) {
+	c.Rule("R11.9", "notifyListNotifyOne advances the notify ticket only after comparing it with the wait ticket while holding the list's mutex", 1)
+	fd := findFunc(lp, "sync_runtime_notifyListNotifyOne")
+	if fd == nil {
+		c.Undecided("R11.9", "libruntime.sync_runtime_notifyListNotifyOne", 0, "function not found")
+		return
+	}
+	c.nfuncs++
+	g := buildCFG(lp, fd)
+	isLock := func(n ast.Node) bool {
+		return nodeHas(n, func(x ast.Node) bool {
+			call, ok := x.(*ast.CallExpr)
+			if !ok {
+				return false
+			}
+			se, ok := call.Fun.(*ast.SelectorExpr)
+			return ok && se.Sel.Name == "Lock"
+		})
+	}
+	isCmp := func(n ast.Node) bool {
+		e, ok := n.(ast.Expr)
+		if !ok {
+			return false
+		}
+		s := strings.ReplaceAll(exprStr(e), " ", "")
+		return strings.Contains(s, ".notify)") && strings.Contains(s, ".wait)") && (strings.Contains(s, "!=") || strings.Contains(s, "=="))
+	}
+	isAdd := func(n ast.Node) bool {
+		return nodeHas(n, func(x ast.Node) bool {
+			call, ok := x.(*ast.CallExpr)
+			return ok && strings.Contains(strings.ReplaceAll(exprStr(call), " ", ""), "AddUint32(&l.notify")
+		})
+	}
+	var lock ast.Node
+	for _, b := range g.G.Blocks {
+		for _, nd := range b.Nodes {
+			if isLock(nd) && lock == nil {
+				lock = nd
+			}
+		}
+	}
+	if lock == nil {
+		c.Bad("R11.9", "libruntime.notifyListNotifyOne compares tickets under the lock", fd.Pos(), "no Lock call")
+		return
+	}
+	lp2, _ := g.nodePos(lock)
+	hit, reached := g.reach(lp2.after(), isCmp, isAdd, false, nil)
+	c.Check(!reached, "R11.9", "libruntime.notifyListNotifyOne compares tickets under the lock", fd.Pos(), "notify != wait tested between Lock and the increment",
+		"the notify ticket is advanced ("+c.posStr(posOf(hit))+") without comparing it with the wait ticket inside the critical section: two concurrent Signals with one waiter both advance it, notify passes wait, and the next Wait returns without a Signal")
+}
+
+// checkAddReturnNew (R11.10): the value returned by atomic.AddT is the result of the read-modify-write itself
+// (old + delta); a separate load may already contain another thread's update.
+func checkAddReturnNew(c *Ctx, cp *packages.Package) {
+	c.Rule("R11.10", "atomic.AddT returns rmw-result + delta from a single atomic access (no second load of the word)", 1)
+	fd := findFunc(cp, "context.callEx")
+	if fd == nil {
+		c.Undecided("R11.10", "cl.context.callEx", 0, "function not found")
+		return
+	}
+	c.nfuncs++
+	var arm *ast.CaseClause
+	ast.Inspect(fd.Body, func(n ast.Node) bool {
+		if cc, ok := n.(*ast.CaseClause); ok && len(cc.List) == 1 && exprStr(cc.List[0]) == "llgoAtomicAddReturnNew" {
+			arm = cc
+		}
+		return true
+	})
+	if arm == nil {
+		c.Undecided("R11.10", "cl.context.callEx llgoAtomicAddReturnNew arm", fd.Pos(), "arm not found")
+		return
+	}
+	info := cp.TypesInfo
+	rmw, other := 0, ""
+	ast.Inspect(arm, func(n ast.Node) bool { // including the emission closure
+		call, ok := n.(*ast.CallExpr)
+		if !ok {
+			return true
+		}
+		f := calleeOf(info, call)
+		if f == nil {
+			return true
+		}
+		switch f.Name() {
+		case "atomic":
+			rmw++
+		case "atomicLoad", "atomicStore", "atomicCmpXchg", "Load":
+			other = f.Name()
+		}
+		return true
+	})
+	s := strings.ReplaceAll(srcOf(arm), " ", "")
+	okRet := strings.Contains(s, "returnb.BinOp(token.ADD,p.atomic(b,llssa.OpAdd,args),args[1])")
+	c.Check(rmw == 1 && other == "" && okRet, "R11.10", "cl.context.callEx AddT result", arm.Pos(), "BinOp(ADD, atomicrmw add result, delta)",
+		fmt.Sprintf("the new value is not computed from the read-modify-write result alone (%d rmw, extra access %q): another thread's update between the two accesses is returned as this call's result, so two WaitGroup.Done can both observe zero", rmw, other))
+}
+
+// checkNoStoreThroughCast (R09.8): the C-ABI rewriter reinterprets values through memory.  A value is always
+// stored into a slot of ITS OWN type and read back through a cast; a store through a cast pointer can be
+// wider than the slot (an 8-byte coerced register into a 3-byte struct).
+func checkNoStoreThroughCast(c *Ctx, ab *packages.Package) {
+	c.Rule("R09.8", "the C-ABI rewriter never stores through a reinterpreting cast: values are stored into a slot of their own type and read back through the cast", 6)
+	n := 0
+	for _, name := range []string{"Transformer.transformFuncBody", "Transformer.transformCallInstr", "Transformer.transformCallbackFunc"} {
+		fd := findFunc(ab, name)
+		if fd == nil {
+			c.Undecided("R09.8", "cabi."+name, 0, "function not found")
+			continue
+		}
+		c.nfuncs++
+		v := newFnView(ab, fd)
+		for _, call := range v.findCalls(fd.Body, "llvm.Builder.CreateStore") {
+			_, args, _ := v.call(call)
+			if len(args) != 2 {
+				continue
+			}
+			n++
+			dst := v.res(args[1])
+			dn, _, isCall := v.call(dst)
+			viaCast := isCall && (dn == "llvm.Builder.CreateBitCast" || dn == "llvm.Builder.CreatePointerCast")
+			for _, d := range v.allDefs(args[1]) {
+				if d != nil {
+					if nm, _, ok := v.call(d); ok && (nm == "llvm.Builder.CreateBitCast" || nm == "llvm.Builder.CreatePointerCast") {
+						viaCast = true
+					}
+				}
+			}
+			c.Check(!viaCast, "R09.8", fmt.Sprintf("cabi.%s store #%d goes to a slot of the stored type", name, n), call.Pos(), exprStr(args[1]),
+				"the value is stored through a cast pointer ("+exprStr(dst)+"): a coerced register wider than the struct (i64 for a 3-byte struct on arm64) overruns the slot; at -O2 LLVM drops the store and the parameter's fields read undef")
+		}
+	}
+	if n == 0 {
+		c.Undecided("R09.8", "cabi stores", 0, "no CreateStore found")
+	}
+}
+
+// checkCFuncCallbackWrapping (R09.9): in C-functions-only mode every C function's call sites are scanned for Go
+// callbacks that need a C-ABI wrapper, whatever the C function's own prototype looks like.
+func checkCFuncCallbackWrapping(c *Ctx, ab *packages.Package) {
+	c.Rule("R09.9", "in ModeCFunc the callback arguments of every C function are wrapped, independently of whether the C function's own signature contains aggregates", 1)
+	fd := findFunc(ab, "Transformer.TransformModule")
+	if fd == nil {
+		c.Undecided("R09.9", "cabi.Transformer.TransformModule", 0, "function not found")
+		return
+	}
+	c.nfuncs++
+	info := ab.TypesInfo
+	n := 0
+	for _, call := range callsIn(fd.Body) {
+		f := calleeOf(info, call)
+		if f == nil || f.Name() != "transformFuncCall" {
+			continue
+		}
+		n++
+		gated := ""
+		for _, cp := range pathConds(fd.Body, call) {
+			if s := exprStr(cp.cond); strings.Contains(s, "isWrapFunctionType") || strings.Contains(s, "IsWrapType") {
+				gated = s
+			}
+		}
+		c.Check(gated == "", "R09.9", "cabi.Transformer.TransformModule wraps callbacks of every C function", call.Pos(), "transformFuncCall guarded only by isCFunc / skip list",
+			"callback wrapping runs only when "+gated+": a Go callback handed to a C function with a scalar-only prototype (qsort-like, set_handler(cb, ud)) reaches C with its Go-level signature")
+	}
+	if n == 0 {
+		c.Undecided("R09.9", "cabi.Transformer.TransformModule callback wrapping", fd.Pos(), "transformFuncCall is not called")
+	}
+}
+
+func init() {
+	addMutant(Mutant{Prop: "C11", Name: "notifyone-check-outside-lock", File: "runtime/internal/lib/runtime/sema_llgo.go",
+		Old: "\tst.mu.Lock()\n\tif latomic.LoadUint32(&l.notify) != latomic.LoadUint32(&l.wait) {\n\t\tlatomic.AddUint32(&l.notify, 1)",
+		New: "\tif latomic.LoadUint32(&l.notify) == latomic.LoadUint32(&l.wait) {\n\t\treturn\n\t}\n\tst.mu.Lock()\n\tif true {\n\t\tlatomic.AddUint32(&l.notify, 1)", Expect: "R11.9"})
+	addMutant(Mutant{Prop: "C11", Name: "add-returns-second-load", File: "cl/instr.go",
+		Old: "\t\t\t\treturn b.BinOp(token.ADD, p.atomic(b, llssa.OpAdd, args), args[1])", New: "\t\t\t\tp.atomic(b, llssa.OpAdd, args)\n\t\t\t\treturn p.atomicLoad(b, args[:1])", Expect: "R11.10"})
+	addMutant(Mutant{Prop: "C09", Name: "body-widthtype-store-through-cast", File: "internal/cabi/cabi.go",
+		Old: "\t\t\tiptr := llvm.CreateAlloca(b, ti.Type1)\n\t\t\tb.CreateStore(params[index], iptr)\n\t\t\tptr := b.CreateBitCast(iptr, llvm.PointerType(ti.Type, 0), \"\")\n\t\t\tnv = b.CreateLoad(ti.Type, ptr, \"\")\n\t\t\tif p.optimize {",
+		New: "\t\t\tptr := llvm.CreateAlloca(b, ti.Type)\n\t\t\tiptr := b.CreateBitCast(ptr, llvm.PointerType(ti.Type1, 0), \"\")\n\t\t\tb.CreateStore(params[index], iptr)\n\t\t\tnv = b.CreateLoad(ti.Type, ptr, \"\")\n\t\t\tif p.optimize {", Expect: "R09.8"})
+	addMutant(Mutant{Prop: "C09", Name: "cfunc-callbacks-only-for-aggregate-prototypes", File: "internal/cabi/cabi.go",
+		Old: "\t\t\t\tp.transformFuncCall(m, fn)\n\t\t\t\tif p.isWrapFunctionType(ctx, fn.GlobalValueType()) {\n\t\t\t\t\tfns = append(fns, fn)\n\t\t\t\t}",
+		New: "\t\t\t\tif p.isWrapFunctionType(ctx, fn.GlobalValueType()) {\n\t\t\t\t\tp.transformFuncCall(m, fn)\n\t\t\t\t\tfns = append(fns, fn)\n\t\t\t\t}", Expect: "R09.9"})
+}
